@@ -19,7 +19,9 @@ Property theorems about `Model/OrderStatsApi.lean`, `Model/KFactorApi.lean` and 
   of Newton passes);
 * `arguments_unchanged`    no function of stats.py writes a buffer owned by its caller;
 * `stats_consts_tie`       the constants and switch points of stats.py are the ones the models and
-  theorems use (regenerated from the source on every run).
+  theorems use (regenerated from the source on every run);
+* `stats_dtype_tie`        the conversions that make the answers independent of the integer dtype of the
+  caller's arrays are present in the source.
 -/
 set_option linter.unusedSectionVars false
 set_option linter.unusedVariables false
@@ -375,6 +377,16 @@ theorem stats_consts_tie :
       C20Stats.getrMaxLoops = 100 ∧ C20Stats.getrRoldOffset = 10 ∧
       C20Stats.getrStartHalf = 2 ∧ C20Stats.getrStartInvN = 2 ∧
       C20Stats.kdoubleTolMant = 1 ∧ C20Stats.kdoubleTolNegExp = 12 := by
+  decide
+
+/-- **integer arguments of any width** (fix cd7a6f7, findings F54/F55).  The models compute with the sample
+sizes as elements of the field (`ksingleApi`, `kdoubleApi`: float64 in the driver) and with the rank as a natural
+number (`nSearch`: unbounded): they do not know the integer dtype of the caller's arrays.  The code agrees with
+that only because it converts first — `n = np.asarray(n, dtype=float)` in `ksingle` and `kdouble` (otherwise
+`np.sqrt` of an int8 array is a float16), `r = int(r)` first in `_run_brentq` (otherwise `b = 2 * a` wraps in the
+dtype of `r`).  These three facts are regenerated from the source on every run. -/
+theorem stats_dtype_tie :
+    C20Stats.ksingleNFloat = true ∧ C20Stats.kdoubleNFloat = true ∧ C20Stats.nRankToInt = true := by
   decide
 
 end effects
